@@ -45,6 +45,9 @@ type sizeChange struct {
 //
 // labels.MergeEndEvent occurs at end of merge and transmits labels.DeltaMergeEnd struct.
 func (d *Data) MergeLabels(v dvid.VersionID, op labels.MergeOp, info dvid.ModInfo) (mutID uint64, err error) {
+	d.bodyMu.Lock()
+	defer d.bodyMu.Unlock()
+
 	if len(op.Merged) == 0 {
 		return 0, fmt.Errorf("merge requested without any labels to merge")
 	}
@@ -204,6 +207,9 @@ func (d *Data) MergeLabels(v dvid.VersionID, op labels.MergeOp, info dvid.ModInf
 //
 // labels.MergeEndEvent occurs at end of merge and transmits labels.DeltaMergeEnd struct.
 func (d *Data) RenumberLabels(v dvid.VersionID, origLabel, newLabel uint64, info dvid.ModInfo) (mutID uint64, err error) {
+	d.bodyMu.Lock()
+	defer d.bodyMu.Unlock()
+
 	var isPresent bool
 	isPresent, err = d.labelIndexExists(v, newLabel)
 	if err != nil {
@@ -342,6 +348,9 @@ func (d *Data) RenumberLabels(v dvid.VersionID, origLabel, newLabel uint64, info
 // A cleave label can be specified via the "toLabel" parameter, which if 0 will have an
 // automatic label ID selected for the cleaved body.
 func (d *Data) CleaveLabel(v dvid.VersionID, label uint64, info dvid.ModInfo, r io.ReadCloser) (cleaveLabel, mutID uint64, err error) {
+	d.bodyMu.Lock()
+	defer d.bodyMu.Unlock()
+
 	if r == nil {
 		err = fmt.Errorf("no cleave supervoxels JSON was POSTed")
 		return
@@ -703,6 +712,9 @@ func getAffectedBlocks(idx *labels.Index, svsplit *labels.SVSplitMap) (affectedB
 // voxels are within the fromLabel set of voxels and will generate unspecified behavior if this is
 // not the case.
 func (d *Data) SplitLabels(v dvid.VersionID, fromLabel uint64, r io.ReadCloser, info dvid.ModInfo) (toLabel, mutID uint64, err error) {
+	d.bodyMu.Lock()
+	defer d.bodyMu.Unlock()
+
 	timedLog := dvid.NewTimeLog()
 
 	// Create a new label id for this version that will persist to store
@@ -884,6 +896,9 @@ func (d *Data) SplitLabels(v dvid.VersionID, fromLabel uint64, r io.ReadCloser, 
 // The first returned label is assigned to the split voxels while the second returned label is
 // assigned to the remainder voxels.
 func (d *Data) SplitSupervoxel(v dvid.VersionID, svlabel, splitlabel, remainlabel uint64, r io.ReadCloser, info dvid.ModInfo, downscale bool) (splitSupervoxel, remainSupervoxel, mutID uint64, err error) {
+	d.bodyMu.Lock()
+	defer d.bodyMu.Unlock()
+
 	timedLog := dvid.NewTimeLog()
 
 	// Create new labels for this split that will persist to store
